@@ -18,15 +18,17 @@
      100+x  add voter x          110+x  remove voter x        (ConfChange, x <= 9)
      120    leave the joint configuration (empty ConfChangeV2)
      130+10a+b  add a and remove b through a joint configuration left automatically (ConfChangeV2)
+     300+x  add learner x (ConfChangeAddLearnerNode; a voter is demoted); a learner is promoted by 100+x
    Every decision of a node (tally, commit index, promotable, progress) uses the node's current
-   configuration.  Learners are not modelled. *)
+   configuration.  Learners: tracked (Progress), replicated to, never counted; LearnersNext (a voter
+   demoted inside a joint change) does not arise from these codes. *)
 Require Import List Arith Bool.
 Require Import Raft.Quorum Raft.RaftModel.
 Import ListNotations.
 
 (* ------------------------------------------------------------------ configurations *)
 
-Record conf : Type := mkC { c_in : list nat; c_out : list nat; c_auto : bool }.
+Record conf : Type := mkC { c_in : list nat; c_out : list nat; c_auto : bool; c_learn : list nat }.
 
 Definition memb (x : nat) (l : list nat) : bool := existsb (Nat.eqb x) l.
 
@@ -44,15 +46,18 @@ Fixpoint del (x : nat) (l : list nat) : list nat :=
   end.
 
 Definition member (c : conf) (x : nat) : bool := memb x (c_in c) || memb x (c_out c).
+(* "has a Progress": voters of either half and learners *)
+Definition tracked (c : conf) (x : nat) : bool := member c x || memb x (c_learn c).
 Definition joint (c : conf) : bool := match c_out c with [] => false | _ => true end.
 
-Inductive ccop : Type := CcAdd (x : nat) | CcRemove (x : nat) | CcJoint (a b : nat) | CcLeave.
+Inductive ccop : Type := CcAdd (x : nat) | CcRemove (x : nat) | CcJoint (a b : nat) | CcLeave | CcAddLearner (x : nat).
 
 Definition cc_of_payload (p : nat) : option ccop :=
   if (100 <=? p) && (p <? 110) then Some (CcAdd (p - 100))
   else if (110 <=? p) && (p <? 120) then Some (CcRemove (p - 110))
   else if p =? 120 then Some CcLeave
   else if (130 <=? p) && (p <? 230) then Some (CcJoint ((p - 130) / 10) ((p - 130) mod 10))
+  else if (300 <=? p) && (p <? 310) then Some (CcAddLearner (p - 300))
   else None.
 
 (* confchange.Changer.Simple / EnterJoint / LeaveJoint; None = the Go code returns an error and
@@ -60,21 +65,25 @@ Definition cc_of_payload (p : nat) : option ccop :=
 Definition apply_cc (c : conf) (op : ccop) : option conf :=
   match op with
   | CcAdd x =>
-      if joint c then None else Some (mkC (ins x (c_in c)) [] false)
+      if joint c then None else Some (mkC (ins x (c_in c)) [] false (del x (c_learn c)))
   | CcRemove x =>
       if joint c then None
-      else match del x (c_in c) with [] => None | l => Some (mkC l [] false) end
+      else match del x (c_in c) with [] => None | l => Some (mkC l [] false (del x (c_learn c))) end
   | CcJoint a b =>
       if joint c then None
       else match c_in c with
            | [] => None
            | _ => match del b (ins a (c_in c)) with
                   | [] => None
-                  | l => Some (mkC l (c_in c) true)
+                  | l => Some (mkC l (c_in c) true (del a (del b (c_learn c))))
                   end
            end
   | CcLeave =>
-      if joint c then Some (mkC (c_in c) [] false) else None
+      if joint c then Some (mkC (c_in c) [] false (c_learn c)) else None
+  | CcAddLearner x =>
+      (* AddLearnerNode, a simple change: a voter is demoted, a learner stays one *)
+      if joint c then None
+      else match del x (c_in c) with [] => None | l => Some (mkC l [] false (ins x (c_learn c))) end
   end.
 
 Definition apply_payload (c : conf) (p : nat) : conf :=
@@ -99,7 +108,7 @@ Section NodeCC.
 
   (* tracker.Progress: Match of ids that were not tracked before starts at 0 *)
   Definition reset_match (c c' : conf) (mt : nat -> nat) : nat -> nat :=
-    fun x => if member c' x && member c x then mt x else 0.
+    fun x => if tracked c' x && tracked c x then mt x else 0.
 
   (* ApplyConfChange of one committed entry: applyConfChange + switchToConfig *)
   Definition apply_entry (st : nstate * conf) (e : entry) : nstate * conf :=
@@ -129,15 +138,29 @@ Section NodeCC.
       if (applied <? rdc) && c_auto c1 && (applied <=? pend) && (pend <=? rdc) && role_eqb (n_role n1) Leader
       then (set_log (n_log n1 ++ [(n_term n1, 120)]) n1, S (length (n_log n1)))
       else (n1, pend) in
-    let n3 := if role_eqb (n_role n2) Leader && member c1 id
+    let n3 := if role_eqb (n_role n2) Leader && tracked c1 id
               then leader_ack (c_in c1) (c_out c1) id l0 n2 else n2 in
     (n3, c1, pend2, rdc).
 
   Fixpoint iter {A : Type} (k : nat) (f : A -> A) (x : A) : A :=
     match k with O => x | S k' => iter k' f (f x) end.
 
+  Definition msg_is_appresp (m : msg) : bool := match m_type m with MsgAppResp => true | _ => false end.
+
   Definition is_response (t : mtype) : bool :=
     match t with MsgVoteResp | MsgAppResp | MsgHeartbeatResp => true | _ => false end.
+
+  (* stepLeader MsgAppResp from a learner: it has a Progress, so Match moves (and maybeCommit runs)
+     although it is no voter; n1 is the node after the term handling of raft.Step *)
+  Definition learner_ack (c : conf) (ev : event) (n1 : nstate) : nstate :=
+    match ev with
+    | EvRecv m =>
+        if msg_is_appresp m && negb (m_reject m) && negb (member c (m_from m))
+           && role_eqb (n_role n1) Leader && (m_term m =? n_term n1)
+        then leader_ack (c_in c) (c_out c) (m_from m) (m_index m) n1
+        else n1
+    | _ => n1
+    end.
 
   (* the call into the RawNode; returns the node, the replies and pendingConfIndex *)
   Definition handle_cc (c : conf) (ev : event) (n : nstate) (pend : nat) : nstate * list msg * nat :=
@@ -145,7 +168,7 @@ Section NodeCC.
     | EvPropose p =>
         match n_role n with
         | Leader =>
-            if negb (member c id) then (n, [], pend)             (* ErrProposalDropped *)
+            if negb (tracked c id) then (n, [], pend)             (* ErrProposalDropped *)
             else match cc_of_payload p with
                  | Some op =>
                      let leave := match op with CcLeave => true | _ => false end in
@@ -164,14 +187,14 @@ Section NodeCC.
                                  else length (n_log n1) - 1
                      | _ => 0
                      end in
-        (n1, snd r, pend1)
+        (learner_ack c ev n1, snd r, pend1)
     end.
 
   Definition exec_cc (ev : event) (st : nstate * nat) : (nstate * nat) * list msg :=
     let (n, pend) := st in
     let c := node_cfg boot n in
     let dropped := match ev with
-                   | EvRecv m => is_response (m_type m) && negb (member c (m_from m))
+                   | EvRecv m => is_response (m_type m) && negb (tracked c (m_from m))
                    | _ => false
                    end in
     if dropped then (st, [])
